@@ -159,9 +159,11 @@ def _tile(text, fullsheet, tokens, ctx, bomshift):
         if kind in LITERAL:
             ok = val == span
         elif kind in DECODED:
-            ok = val == decode(span)
+            # (the string inside url("...") is a string: a line continuation in it disappears)
+            isuri = kind == 'URI'
+            ok = val == decode(span, isuri)
             if not ok and last and fullsheet and kind == 'URI':
-                ok = any(val == decode(span + c) for c in (')', '")', "')"))
+                ok = any(val == decode(span + c, True) for c in (')', '")', "')"))
                 completed = completed or ok
         elif kind in DECODED_STR:
             ok = val == decode(span, True)
@@ -179,7 +181,7 @@ def _tile(text, fullsheet, tokens, ctx, bomshift):
             sig = 'value:' + kind
             if '\\\\' in span:
                 sig += ':after-escaped-backslash'
-            raise Violation(sig, f'token {t!r} span {span!r} expected {decode(span, kind in DECODED_STR)!r} in {text!r}')
+            raise Violation(sig, f'token {t!r} span {span!r} expected {decode(span, kind in DECODED_STR or kind == "URI")!r} in {text!r}')
         if '\\' in span:
             has_escape = True
         if '\n' in span and kind != 'S':
@@ -402,7 +404,7 @@ def uri_tok(draw):
     w1 = draw(st.sampled_from(['', ' ', '\t', '\n', ' \r\n']))
     w2 = draw(st.sampled_from(['', ' ', '\n']))
     if draw(st.booleans()):
-        s, v = draw(string_tok(continuation=False))
+        s, v = draw(string_tok(continuation=True))  # (line continuations disappear as in any string)
         body_s, body_v = s, v
     else:
         body_s = body_v = draw(st.text(URL_PLAIN, max_size=8))
